@@ -412,3 +412,135 @@ func vpRefSplitMix(seed uint64, i uint64) uint64 {
 	z = (z ^ (z >> 27)) * 0x94D049BB133111EB
 	return z ^ (z >> 31)
 }
+
+// ---------- shared generators ----------
+
+// vpRefPalette describes how numbers of one case are drawn: mode 0 = small integers (the exact
+// class), 1 = dyadic fractions, 2 = decimal fractions and large magnitudes. A small palette of
+// values per case makes "all values identical" (min == max) common.
+type vpRefPalette struct {
+	Mode   int
+	Values []float64
+}
+
+func vpRefGenPalette(t *rapid.T) vpRefPalette {
+	p := vpRefPalette{Mode: rapid.SampledFrom([]int{0, 0, 0, 1, 2, 2}).Draw(t, "numMode")}
+	n := rapid.SampledFrom([]int{1, 1, 1, 2, 2, 3, 5, 8}).Draw(t, "paletteLen")
+	for i := 0; i < n; i++ {
+		p.Values = append(p.Values, vpRefGenValue(t, p.Mode))
+	}
+	return p
+}
+
+func vpRefGenValue(t *rapid.T, mode int) float64 {
+	switch mode {
+	case 0:
+		if rapid.IntRange(0, 3).Draw(t, "tiny") != 0 {
+			return float64(rapid.IntRange(-3, 12).Draw(t, "vint"))
+		}
+		return float64(rapid.IntRange(-1024, 1024).Draw(t, "vint"))
+	case 1:
+		return float64(rapid.IntRange(-8000, 8000).Draw(t, "v8")) / 8
+	default:
+		switch rapid.IntRange(0, 5).Draw(t, "vclass") {
+		case 0:
+			return float64(rapid.IntRange(-50, 50).Draw(t, "v10")) / 10
+		case 1:
+			return rapid.Float64Range(-1e6, 1e6).Draw(t, "vf")
+		case 2:
+			return rapid.SampledFrom([]float64{1e-30, -1e-30, 1e15, -1e15, 3e18, 1e-9, 0}).Draw(t, "vbig")
+		case 3:
+			return float64(rapid.Float32Range(-1e9, 1e9).Draw(t, "vf32"))
+		default:
+			return float64(rapid.IntRange(-100000, 100000).Draw(t, "vi"))
+		}
+	}
+}
+
+// explicit counter of an event that carries total samples; 0 = not given
+func vpRefGenCount(t *rapid.T, mode int, total float64) float64 {
+	switch rapid.IntRange(0, 5).Draw(t, "cntClass") {
+	case 0, 1:
+		return 0
+	case 2:
+		return total
+	case 3:
+		return float64(rapid.IntRange(1, 20).Draw(t, "cnt"))
+	default:
+		switch mode {
+		case 0:
+			return float64(rapid.IntRange(1, 1024).Draw(t, "cnt"))
+		case 1:
+			return float64(rapid.IntRange(1, 4000).Draw(t, "cnt4")) / 4
+		default:
+			return rapid.SampledFrom([]float64{0.1, 0.3, 2.5, 7.7, 1e6, 123456.789, 1e-3}).Draw(t, "cntf")
+		}
+	}
+}
+
+var vpRefHosts = []vpRefHost{{}, {}, {I: 1}, {I: 2}, {I: 3}, {S: "ha"}, {S: "hb"}}
+
+// vpRefGenEvent draws one event. kinds is the list to sample the kind from; uniqMax bounds the size
+// of a unique event.
+func vpRefGenEvent(t *rapid.T, p vpRefPalette, kinds []int, hosts []vpRefHost, uniqMax int) vpRefEvent {
+	e := vpRefEvent{Kind: rapid.SampledFrom(kinds).Draw(t, "kind"), Host: rapid.SampledFrom(hosts).Draw(t, "host")}
+	pick := func() float64 {
+		if rapid.IntRange(0, 9).Draw(t, "offPalette") == 0 {
+			return vpRefGenValue(t, p.Mode)
+		}
+		return rapid.SampledFrom(p.Values).Draw(t, "pv")
+	}
+	switch e.Kind {
+	case vpRefKindCounter:
+		e.Count = vpRefGenCount(t, p.Mode, 1)
+		if e.Count == 0 {
+			e.Count = 1
+		}
+	case vpRefKindValues:
+		nv := rapid.SampledFrom([]int{1, 1, 1, 2, 3, 4, 8}).Draw(t, "nv")
+		nh := 0
+		if rapid.IntRange(0, 4).Draw(t, "hist") == 0 {
+			nh = rapid.IntRange(1, 3).Draw(t, "nh")
+			if rapid.Bool().Draw(t, "histOnly") {
+				nv = 0
+			}
+		}
+		for i := 0; i < nv; i++ {
+			e.Values = append(e.Values, pick())
+		}
+		for i := 0; i < nh; i++ {
+			var cc float64
+			switch p.Mode {
+			case 0:
+				cc = float64(rapid.IntRange(1, 5).Draw(t, "hc"))
+			case 1:
+				cc = float64(rapid.IntRange(1, 40).Draw(t, "hc4")) / 4
+			default:
+				cc = rapid.SampledFrom([]float64{0.5, 1, 2.5, 3.3, 100}).Draw(t, "hcf")
+			}
+			e.Hist = append(e.Hist, [2]float64{pick(), cc})
+		}
+		total, _ := e.totals()
+		e.Count = vpRefGenCount(t, p.Mode, total)
+	case vpRefKindUnique:
+		n := rapid.IntRange(1, uniqMax).Draw(t, "nu")
+		for i := 0; i < n; i++ {
+			var h int64
+			switch p.Mode {
+			case 0:
+				h = int64(rapid.IntRange(-1024, 1024).Draw(t, "uh"))
+			case 1:
+				h = int64(rapid.IntRange(-100000, 100000).Draw(t, "uh"))
+			default:
+				if rapid.Bool().Draw(t, "uhBig") {
+					h = rapid.Int64().Draw(t, "uh64")
+				} else {
+					h = int64(rapid.IntRange(0, 50).Draw(t, "uh"))
+				}
+			}
+			e.Uniq = append(e.Uniq, h)
+		}
+		e.Count = vpRefGenCount(t, p.Mode, float64(n))
+	}
+	return e
+}
